@@ -10,7 +10,7 @@ MC = 'explicit-state exhaustive operation-sequence exploration of the real imple
 CHECKS = {
     'C01': ('model_checking', '4/C01',
             'Every edit history over the sigma1 alphabet (plus boundary macro steps, growth/shrink chains and the continuation-area allocator alphabet) up to the depth bound, '
-            'in 12 configurations (256 at depth 2 in the thorough tier), is executed on the real implementation, mastered, reopened and compared entry-by-entry and byte-by-byte with a reference model.',
+            'in 12 configurations (256 at depth 2 in the thorough tier), is executed on the real implementation, mastered, reopened and compared entry-by-entry and byte-by-byte with a reference model; plus a fixed list of histories with files of 4 GiB and more on virtual devices.',
             'reference model mc/model.py; pycdlib reads its own image here (independent readers: C03/C08/C09/C10); alphabet and depth bounds',
             MC + ' against a reference model'),
     'C03': ('model_checking', '4/C03',
@@ -27,7 +27,7 @@ CHECKS = {
             'For every base history, every placement of up to k deviations (force_consistency / query-everything / extra write at every gap) and the always-consistent mode is executed; final bytes must equal the deviation-free schedule, and record queries after force_consistency must match the next image.',
             'deviation kinds FC/Q/W/AC; bound on deviations', 'deviation-bounded exhaustive schedule exploration over exhaustive operation sequences'),
     'C08': ('model_checking', '4/C08',
-            'Every enumerated history (incl. long names, deep chains, continuation-area allocator alphabet) is decoded by an independent SUSP/RRIP reader; names, types, modes, link counts, symlink targets and area well-formedness are checked.',
+            'Every enumerated history (incl. complete sweeps over name / identifier / target lengths, deep chains x name lengths built and taken down, continuation-area allocator alphabet) is decoded by an independent SUSP/RRIP reader; names, types, modes, link counts, symlink targets and area well-formedness are checked.',
             'decoders r119 + rsusp trusted base; link-count rule calibrated on the unchanged tree', MC + ' + independent decoder oracle'),
     'C09': ('model_checking', '4/C09',
             'Every enumerated history on Joliet configurations is decoded from the supplementary descriptor by the independent reader; tree, names, shared extents, path tables.',
@@ -43,18 +43,18 @@ CHECKS = {
 CHECKS.update({
     'C02': ('model_checking', '4/C02',
             'Generation chains: every history over sigma1/reopen with REOPEN (write, open the bytes in a fresh object) and REOPEN_SAME (close() and re-use the object) as alphabet members, '
-            'plus seven varied base images reopened and then edited exhaustively; the last generation must equal the reference model carried across generations.',
+            'plus eight varied base images reopened and then edited exhaustively (incl. macro steps that grow the root directory and the path tables) and the continuation-area alphabet with REOPEN; the last generation - as reopened, and as seen through the object that made the edits - must equal the reference model carried across generations.',
             'reference model; only library-produced images (no foreign corpus is vendored)', MC + ' with reopen transitions against a reference model'),
     'C07': ('model_checking', '4/C07',
-            'Every history over the hard-link alphabet sigma7 (links in all directions between ISO9660, Joliet, UDF and the boot catalog, El Torito references, every removal, reopen): '
-            'model equality, content stored once (allocation map) and release of the volume space exactly when the last reference goes.',
+            'Every history over the hard-link alphabet sigma7 (links in all directions between ISO9660, Joliet, UDF and the boot catalog, the same identifier in two directories, El Torito references, every removal, reopen) and over the re-add alphabet with a query-everything step: '
+            'model equality on the reopened image and on the editing object (removed names no longer resolve), content stored once (allocation map) and release of the volume space exactly when the last reference goes.',
             'reference model of link semantics; 10-sector content for the space clause', MC + ' against a reference model + allocation-map and space-accounting oracles'),
     'C12': ('exploration', '4/C12',
-            'Complete products over geometry (63 x 256), partition entry/offset/type, mbr id, plain/EFI/EFI+Mac, cylinder counts beyond 1024, image sizes in every order and histories with force_consistency before/after add_isohybrid; '
+            'Complete products over geometry (63 x 256), partition entry/offset/type, mbr id, plain/EFI/EFI+Mac/second x86 entry, cylinder counts beyond 1024, image sizes in every order and histories with force_consistency before/after add_isohybrid; '
             'decoded by an independent MBR/GPT/APM reader and compared with the non-hybrid image.',
             'decoders rhyb/rboot/r119; isohybrid GPT array CRC convention accepted', 'exhaustive enumeration of finite parameter products on the real implementation with an independent decoder'),
     'C13': ('exploration', '4/C13',
-            'Every path component up to length 4 (5) over 10 characters at every level as file and directory, boundary families for every length limit in every namespace, and every duplicate/re-add history up to depth 3 (4): '
+            'Every path component up to length 4 (5) over 10 characters at every level as file and directory, boundary families for every length limit in every namespace, and every duplicate/re-add history up to depth 3 (4), incl. one Rock Ridge name under several identifiers: '
             'accepted => legal, unique in the written image, write succeeds; refused => PyCdlibInvalidInput at the edit.',
             'legality predicate written from the documented rules', 'exhaustive string / history enumeration on the real implementation against a legality predicate'),
     'C14': ('fault_enumeration', '4/C14',
@@ -64,14 +64,14 @@ CHECKS.update({
             'Every truncation point, every byte of every non-zero metadata sector, every both-endian field / UDF word / boot-info-table word x hostile menu and pairs of pointer fields of library-produced seed images: open_fp must return or raise a documented exception within an I/O budget.',
             'seed images from the library; structural fault model; budget = 50 x baseline calls + 2000', 'exhaustive fault enumeration over seed images under an I/O-budgeted file object'),
     'C16': ('model_checking', '4/C16',
-            'Every stream script up to length 3 (4) over 35 operations with every placement of up to 1 (2) interfering operations, on 6 file lengths, on opened / unwritten / edited images, in lock step with io.BytesIO; extraction with every block size.',
+            'Every stream script up to length 3 (4) over 35 operations with every placement of up to 1 (2) interfering operations, on 6 file lengths, on opened / unwritten / edited / looked-up-removed-and-re-added images, in lock step with io.BytesIO; extraction with every block size.',
             'io.BytesIO is the reference model', 'exhaustive script enumeration with deviation-bounded interference against a reference stream'),
     'C17': ('model_checking', '4/C17',
-            'Every file of every base image x every new length class x 2 contents (x a second modification): acceptance rule, byte differential of the backing file against ranges located by the independent decoders, full decode of the modified image.',
+            'Every file of every base image (incl. a directory that fills its first sector exactly) x every new length class x 2 contents (x a second modification): acceptance rule, byte differential of the backing file against ranges located by the independent decoders, full decode of the modified image.',
             'decoders locate records on the image before the modification', 'exhaustive input/sequence enumeration with a byte-differential and decoder oracle'),
     'C18': ('exploration', '4/C18',
-            'Every string up to length 4 (5) over 21 characters x level x file/dir through the manglers, acceptance through the Rock Ridge facade, collision numbering of the genisoimage tool.',
-            'legality predicate of C13', 'exhaustive string enumeration'),
+            'Every string up to length 4 (5) over 23 characters x level x file/dir through the manglers, acceptance through the Rock Ridge facade, collision numbering of the genisoimage tool, and every history of at most 4 (5) steps over 12 facade / direct operations with one Rock Ridge facade object kept for the history.',
+            'legality predicate of C13; small Rock-Ridge-path model for the facade histories', 'exhaustive string enumeration + exhaustive operation-sequence exploration of the facade'),
     'C19': ('exploration', '4/C19',
             'A stated grid of instants (year boundaries, leap days, every DST transition, hourly grids) x fixed-offset and tzdata zones x 4 timestamp classes: decoded fields + offset = instant; parse/record identity.',
             'grid, not every instant; zones whose offset is not a multiple of 15 minutes are skipped', 'exhaustive enumeration of a finite instant x zone grid'),
